@@ -236,17 +236,17 @@ def _as_secs_f64(ctx, a, c):
 
 @model("Duration::as_millis", doc="std::time: whole milliseconds (truncating), as u128")
 def _as_millis(ctx, a, c):
-    return z3.Int2BV(deref(ctx, a[0]) / 1000000, 128)
+    return deref(ctx, a[0]) / 1000000  # stays an integer (see interp.binop)
 
 
 @model("Duration::as_micros", doc="std::time: whole microseconds (truncating), as u128")
 def _as_micros(ctx, a, c):
-    return z3.Int2BV(deref(ctx, a[0]) / 1000, 128)
+    return deref(ctx, a[0]) / 1000
 
 
 @model("Duration::as_nanos", doc="std::time: nanoseconds, as u128")
 def _as_nanos(ctx, a, c):
-    return z3.Int2BV(deref(ctx, a[0]), 128)
+    return deref(ctx, a[0])
 
 
 @model("Duration::is_zero", doc="std::time")
@@ -480,10 +480,15 @@ def _slice_iter_any(ctx, a, c):
     return _prev_slice_iter(ctx, a, c)
 
 
+_prev_iter_filter = MODELS.get("Iterator::filter")
+
+
 @model("Iterator::filter", "<Iter as Iterator>::filter", doc="core: lazily filtered iterator (only `count` is modelled on it)")
 def _iter_filter(ctx, a, c):
     it = a[0]
     if not isinstance(it, VecIterV):
+        if _prev_iter_filter is not None:
+            return _prev_iter_filter(ctx, a, c)
         raise Inconclusive("filter on " + repr(it))
     it.pred = a[1]
     return it
